@@ -1,7 +1,7 @@
 (* C05 — results are canonical; ==, is_empty(), is_any() are exact.
    Statements only; the operators, ==, is_empty, is_any are the GENERATED definitions. *)
 From Coq Require Import List Bool NArith ZArith Orders.
-From Verif Require Import PyRes Order Cuts Str SpecTypes GenSpec SpecSem RangeBridge SpecOps SpecEq SpecExpr Pep440.
+From Verif Require Import PyRes Order Cuts Str SpecTypes GenSpec SpecSem RangeBridge SpecOps SpecEq SpecExpr Pep440 Pep440Facts.
 Import ListNotations.
 
 Module C05_Abstract (V : OrderedTypeFull').
@@ -45,6 +45,24 @@ Module C05_Abstract (V : OrderedTypeFull').
     rewrite He. split; intros H c P; specialize (H c P); rewrite M in *; exact H.
   Qed.
 
+  (* Read over VERSIONS (a version v is the position `vcut v` just before it) the three statements keep one direction each:
+     equal results admit the same versions, an empty intersection has no common version, a universal union admits every
+     version.  The converses hold for positions; for versions they would need the version order to be dense, and the public
+     PEP 440 order is not (C05_gap_refuted below). *)
+  Theorem C05_versions a b : canon a -> canon b ->
+    (spec_eq a b = Ret true -> forall v, mem (vcut v) a = mem (vcut v) b)
+    /\ (forall r, spec_and a b = Ret r -> spec_is_empty r = Ret true -> forall v, mem (vcut v) a && mem (vcut v) b = false)
+    /\ (forall r, spec_or a b = Ret r -> spec_is_any r = Ret true -> forall v, mem (vcut v) a || mem (vcut v) b = true).
+  Proof.
+    intros Ca Cb. assert (P : forall v, pos (vcut v)) by (intros v; constructor; reflexivity).
+    split; [|split].
+    - intros E v. destruct (C05_unique a b Ca Cb) as (r & Er & Hr). rewrite E in Er. injection Er as <-. exact (proj1 Hr eq_refl _ (P v)).
+    - intros r E Ee v. destruct (C05_empty a b Ca Cb) as (r' & e & Er & Ee' & He). rewrite E in Er. injection Er as <-.
+      rewrite Ee in Ee'. injection Ee' as <-. exact (proj1 He eq_refl _ (P v)).
+    - intros r E Ee v. destruct (C05_any a b Ca Cb) as (r' & e & Er & Ee' & He). rewrite E in Er. injection Er as <-.
+      rewrite Ee in Ee'. injection Ee' as <-. exact (proj1 He eq_refl _ (P v)).
+  Qed.
+
   (* the constructor guard: accepted exactly when no include flag sits on an unbounded side;
      every range inside a canonical value satisfies it (wfr is part of canon) *)
   Theorem C05_post_init m M im iM s :
@@ -72,6 +90,49 @@ Example C05_runs :
   /\ spec_eq ex_b (SRange (rg (Some (v_ [1]%N)) (Some (v_ [2;0;0]%N)) true false)) = Ret true.
 Proof. split; [|split]; [eexists; split; vm_compute; reflexivity | eexists; repeat split; vm_compute; reflexivity | vm_compute; reflexivity]. Qed.
 
+(* The recorded finding "adjacent-gap", machine-checked on the model: no public version lies strictly between 1.0 and
+   1.0.post0.dev0, so no version satisfies both >1.0 and <1.0.post0.dev0 - yet their intersection is the non-empty range
+   (1.0, 1.0.post0.dev0) and is_empty() answers False.  (== and is_any() fail on the same gap: >1.0 vs >=1.0.post0.dev0,
+   <=1.0 | >=1.0.post0.dev0.) *)
+Definition gap_lo : version := mkVer 0 [1;0]%N None None None.
+Definition gap_hi : version := mkVer 0 [1;0]%N None (Some 0%N) (Some 0%N).
+Definition gap_a : spec := SRange (rg (Some gap_lo) None false false).     (* >1.0 *)
+Definition gap_b : spec := SRange (rg None (Some gap_hi) false false).     (* <1.0.post0.dev0 *)
+Lemma gap_no_version_between : forall v : version, ~ (Pep440.lt gap_lo v /\ Pep440.lt v gap_hi).
+Proof.
+  intros v [H1 H2]. unfold Pep440.lt in H1, H2. change (lex (vkey gap_lo) (vkey v)) with (Pep440.compare gap_lo v) in H1.
+  change (lex (vkey v) (vkey gap_hi)) with (Pep440.compare v gap_hi) in H2.
+  rewrite vcompare_decomp in H1, H2. cbn [epoch release gap_lo gap_hi] in H1, H2.
+  rewrite (N.compare_antisym (epoch v) 0%N) in H1.
+  destruct (N.compare (epoch v) 0%N) eqn:Ee; cbn [CompOpp] in H1; try discriminate.
+  rewrite (cmp_pad_antisym (release v) [1;0]%N) in H1.
+  destruct (cmp_pad (release v) [1;0]%N) eqn:Er; cbn [CompOpp] in H1; try discriminate.
+  destruct v as [e rel [[k n]|] [q|] [d|]]; unfold suffix, pre_rank, pre_n, post_rank, post_n, dev_rank, dev_n in H1, H2;
+    cbn [pre post dev] in H1, H2; try (destruct k); cbn in H1, H2; try discriminate;
+    try (destruct q; cbn in H1, H2; try discriminate); try (destruct d; cbn in H1, H2; discriminate).
+Qed.
+
+Lemma C05_gap_proof :
+  (forall v : version, ~ (Pep440.lt gap_lo v /\ Pep440.lt v gap_hi))
+  /\ (forall v : version, mem (vcut v) gap_a && mem (vcut v) gap_b = false)
+  /\ exists r, spec_and gap_a gap_b = Ret r /\ spec_is_empty r = Ret false.
+Proof.
+  split; [exact gap_no_version_between|]. split.
+  - intros v. pose proof (gap_no_version_between v) as N.
+    unfold mem, gap_a, gap_b, memr, lb, ub, rg, vcut. cbn [rmin rmax imin imax].
+    unfold CB.vleb, CB.vltb. cbn [CO.compare CO.side_cmp].
+    destruct (lex (vkey gap_lo) (vkey v)) eqn:E1; destruct (lex (vkey v) (vkey gap_hi)) eqn:E2; cbn; try reflexivity.
+    exfalso. apply N. split; [exact E1 | exact E2].
+  - eexists. split; vm_compute; reflexivity.
+Qed.
+
+Theorem C05_gap_refuted :
+  (forall v : version, ~ (Pep440.lt gap_lo v /\ Pep440.lt v gap_hi))
+  /\ (forall v : version, mem (vcut v) gap_a && mem (vcut v) gap_b = false)
+  /\ exists r, spec_and gap_a gap_b = Ret r /\ spec_is_empty r = Ret false.
+Proof. exact C05_gap_proof. Qed.
+
 (* one traversal for all theorems of this file; the check reads the redirected output *)
-Definition C05_all := (C05_Pep440.C05_closed, C05_Pep440.C05_unique, C05_Pep440.C05_empty, C05_Pep440.C05_any, C05_Pep440.C05_post_init).
+Definition C05_all := (C05_Pep440.C05_closed, C05_Pep440.C05_unique, C05_Pep440.C05_empty, C05_Pep440.C05_any, C05_Pep440.C05_post_init,
+                       C05_Pep440.C05_versions, C05_gap_refuted).
 Redirect "C05.assumptions" Print Assumptions C05_all.
